@@ -334,6 +334,26 @@ func evalC15Str(c C15StrCase) *h.Finding {
 					return
 				}
 			}
+			// the value must not come back later either: the next call (which may have to say hello
+			// first) writes clean lines only
+			h.Wait()
+			before = len(cs.ToServer())
+			nerr := cl.Noop()
+			h.Wait()
+			after := cs.ToServer()[before:]
+			for _, l := range bytes.SplitAfter(after, []byte("\n")) {
+				if len(l) == 0 {
+					continue
+				}
+				if m := oneLine(l); m != "" {
+					f = h.F("c15-second-line", "%s: a later call (Noop, returned %v) wrote %q: %s", desc, nerr, after, m)
+					return
+				}
+			}
+			if rawArg && strings.ContainsAny(c.S, "\r\n") && (nerr != nil || !bytes.HasSuffix(after, []byte("NOOP\r\n"))) {
+				f = h.F("c15-poisoned-after-refusal", "%s: after the refused call a plain Noop returned %v and wrote %q", desc, nerr, after)
+				return
+			}
 		}, &lines)
 	})
 	if f == nil && pan != "" {
@@ -345,8 +365,8 @@ func evalC15Str(c C15StrCase) *h.Finding {
 	if f == nil {
 		// what the server saw: each received line is one of the client's commands
 		for _, l := range lines {
-			if strings.ContainsAny(strings.TrimSuffix(l, "\r\n"), "\r\n") {
-				f = h.F("c15-second-line", "%s: the server received a line with an embedded CR/LF: %q", desc, l)
+			if !strings.HasSuffix(l, "\r\n") || strings.ContainsAny(strings.TrimSuffix(l, "\r\n"), "\r\n") {
+				f = h.F("c15-second-line", "%s: the server received a line with an embedded CR/LF or a bare LF ending: %q", desc, l)
 			}
 		}
 	}
